@@ -157,17 +157,24 @@ def judge(root: str, obs: list[dict], consts: str, shards: int = 1) -> tuple[dic
 GRAPH_LETTERS = ["r1", "r2", "r3", "r4"]
 
 
+def _norm_graph(g: list) -> list:
+    """[[ref, [reqs...], join]] (join defaults to AND for old replay files)."""
+    return [[st[0], sorted(st[1]), st[2] if len(st) > 2 else "AND"] for st in g]
+
+
 def graph_observe(g: list) -> dict:
-    """g = [[ref, [reqs...]], ...] -> what the real code did with it."""
+    """g = [[ref, [reqs...], join], ...] -> what the real code did with it."""
     from stabilize.dag.topological import (CircularDependencyError, InvalidStageGraphError,
                                             get_execution_layers, topological_sort)
-    from stabilize.models.stage import StageExecution
+    from stabilize.models.stage import JoinType, StageExecution
     from stabilize.models.workflow import Workflow
 
-    stages = [StageExecution(ref_id=r, name="s%d" % i, type="t", requisite_stage_ref_ids=set(q))
-              for i, (r, q) in enumerate(g)]
+    g = _norm_graph(g)
+    stages = [StageExecution(ref_id=r, name="s%d" % i, type="t", requisite_stage_ref_ids=set(q),
+                             join_type=JoinType[j], join_threshold=1 if j == "N_OF_M" else 0)
+              for i, (r, q, j) in enumerate(g)]
     pos = {id(s): i + 1 for i, s in enumerate(stages)}
-    o = {"g": [[r, sorted(q)] for r, q in g], "created": False, "kind": "none", "sorted": False, "order": [],
+    o = {"g": g, "created": False, "kind": "none", "sorted": False, "order": [],
          "sortexc": "", "layers": []}
     try:
         wf = Workflow.create("app", "wf", stages)
@@ -206,6 +213,13 @@ def _graph_chunk(lines: list[str]) -> list:
                       and o["layers"] == pred_layers)
         o["pred"] = {"valid": c["valid"], "kind": c["kind"], "sortable": c["sortable"]}
         out.append(o)
+        if c["valid"] and any(st[2] != "AND" for st in o["g"]):
+            # the order inside one Kahn round follows set iteration over random stage ids: a valid graph that
+            # carries a non-AND join is observed three more times (extra observations, judged like the others)
+            for _ in range(3):
+                x = graph_observe(c["g"])
+                x["extra"] = True
+                out.append(x)
     return out
 
 
@@ -233,6 +247,9 @@ def random_graphs(rnd: random.Random, n: int) -> list[list]:
             for _ in range(rnd.randint(1, 3)):
                 a, b = rnd.sample(range(k), 2)
                 g[a][1] = sorted(set(g[a][1]) | {g[b][0]})
+        for st in g:                     # join types: mostly on real joins, sometimes anywhere
+            p = 0.6 if len(st[1]) >= 2 else 0.15
+            st.append(rnd.choice(["OR", "DISCRIMINATOR", "N_OF_M", "MULTI_MERGE"]) if rnd.random() < p else "AND")
         res.append(g)
     return res
 
@@ -241,11 +258,13 @@ GRAPH_VIOL = {"C20_CreateIffValid", "C20_OrderAfterDeps", "C20_DocumentedError"}
 
 
 def graph_part(tier: str, seed: int, rep: evidence.Reporter, pool, corrupt: bool = False) -> dict:
-    maxlen = 3 if tier == "quick" else 4
+    # quick: <= 3 stages, at most one non-AND join; thorough: <= 4 stages, every join assignment on lists of <= 3
+    maxlen, max_non_and = (3, 1) if tier == "quick" else (4, 3)
     rd = tlc.new_rundir("c20-graph")
     try:
-        cfg = ("CONSTANTS\n  Refs = {%s}\n  MaxLen = %d\nINIT Init\nNEXT Next\nSYMMETRY LetterSym\n"
-               "INVARIANT Export\nINVARIANT DefsAgree\nCHECK_DEADLOCK FALSE\n" % (", ".join(GRAPH_LETTERS), maxlen))
+        cfg = ("CONSTANTS\n  Refs = {%s}\n  MaxLen = %d\n  MaxNonAnd = %d\n  JoinMaxLen = 3\n  JoinUniqueOnly = TRUE\n"
+               "INIT Init\nNEXT Next\nSYMMETRY LetterSym\n"
+               "INVARIANT Export\nINVARIANT DefsAgree\nCHECK_DEADLOCK FALSE\n" % (", ".join(GRAPH_LETTERS), maxlen, max_non_and))
         r = _run_tlc(rd, "MC_Graph", cfg, workers=16, extra=["-coverage", "1"])
     finally:
         shutil.rmtree(rd, ignore_errors=True)
@@ -264,7 +283,9 @@ def graph_part(tier: str, seed: int, rep: evidence.Reporter, pool, corrupt: bool
     obs: list[dict] = []
     for part in pool.imap_unordered(_graph_chunk, chunks):
         obs.extend(part)
-    n_enum = len(obs)
+    obs.sort(key=lambda x: bool(x.get("extra")))          # enumerated cases first, repeated observations after
+    n_enum = sum(1 for x in obs if not x.get("extra"))
+    n_extra = len(obs) - n_enum
     rnd = random.Random(seed * 7919 + 1)
     n_rand = 3000 if tier == "quick" else 40000
     rgraphs = random_graphs(rnd, n_rand)
@@ -289,10 +310,10 @@ def graph_part(tier: str, seed: int, rep: evidence.Reporter, pool, corrupt: bool
             pred_classes[pk] = pred_classes.get(pk, 0) + 1
         if o.get("agree") is False:
             disagree += 1
-    letters = sorted({x for o in obs for (rf, q) in o["g"] for x in [rf, *q]})
+    letters = sorted({x for o in obs for st in o["g"] for x in [st[0], *st[1]]})
     consts = "CONSTANTS\n  Refs = {%s}\n" % ", ".join('"%s"' % x for x in letters)
     slim = [{k: o[k] for k in ("g", "created", "kind", "sorted", "order", "sortexc", "layers")} for o in obs]
-    fails, jst, err = judge("Obs_Graph", slim, consts, shards=1 if tier == "quick" else 8)
+    fails, jst, err = judge("Obs_Graph", slim, consts, shards=6 if tier == "quick" else 8)
     if err:
         rep.machinery_failure("Obs_Graph: " + err)
         return {}
@@ -315,11 +336,24 @@ def graph_part(tier: str, seed: int, rep: evidence.Reporter, pool, corrupt: bool
                        "more": [x["g"] for x in items[1:6]]})
     if disagree and not fails:
         rep.machinery_failure(f"{disagree} graph replays differ from MC_Graph's prediction but Obs_Graph accepted them")
+    joins_seen: dict[str, int] = {}
+    for o in obs[:n_enum]:
+        for st in o["g"]:
+            if st[2] != "AND":
+                key = st[2] + (":valid" if o["pred"]["valid"] else ":" + o["pred"]["kind"])
+                joins_seen[key] = joins_seen.get(key, 0) + 1
+    for jt in ("OR", "DISCRIMINATOR", "N_OF_M", "MULTI_MERGE"):
+        for cls in ("valid", "cycle"):
+            if not joins_seen.get(jt + ":" + cls):
+                rep.machinery_failure(f"vacuity: MC_Graph enumerated no {cls} graph with a {jt} join")
     for need in ("valid", "duplicate_ref", "self_edge", "unknown_ref", "cycle"):
         if not pred_classes.get(need):
             rep.machinery_failure("vacuity: MC_Graph enumerated no graph of class " + need)
-    return {"bound": {"letters": len(GRAPH_LETTERS), "max_stages": maxlen, "symmetry": "letter permutations"},
-            "enumerated_graphs": n_enum, "random_graphs": n_rand, "classes_enumerated": pred_classes, "classes_observed": classes,
+    return {"bound": {"letters": len(GRAPH_LETTERS), "max_stages": maxlen, "symmetry": "letter permutations",
+                      "join_types": "non-AND join types on stages with >= 2 requisites, in unique-ref lists of <= 3 stages, "
+                                    "at most %d per list" % max_non_and},
+            "non_and_joins_enumerated": dict(sorted(joins_seen.items())),
+            "enumerated_graphs": n_enum, "repeated_observations": n_extra, "random_graphs": n_rand, "classes_enumerated": pred_classes, "classes_observed": classes,
             "mc_states": r.distinct, "mc_transitions": r.generated, "mc_wall_s": round(r.wall, 1),
             "action_AddStage_states": cov_add, "defs_agree_checked_on": r.distinct,
             "judge_states": jst["states"], "judge_transitions": jst["transitions"], "judge_wall_s": round(jst["wall"], 1),
@@ -1096,15 +1130,19 @@ def replay(pid: str, path: str) -> int:
     rep = evidence.Reporter(pid)
     rep.findings = []          # a replay reports what it sees
     if doc["kind"] == "graph":
-        o = graph_observe(doc["g"])
-        letters = sorted({x for (rf, q) in o["g"] for x in [rf, *q]}) or ["r1"]
-        slim = [{k: o[k] for k in ("g", "created", "kind", "sorted", "order", "sortexc", "layers")}]
+        # the order inside one Kahn round follows set iteration over fresh random stage ids: observe 24 times
+        many = [graph_observe(doc["g"]) for _ in range(24)]
+        letters = sorted({x for st in many[0]["g"] for x in [st[0], *st[1]]}) or ["r1"]
+        slim = [{k: o[k] for k in ("g", "created", "kind", "sorted", "order", "sortexc", "layers")} for o in many]
         fails, _, err = judge("Obs_Graph", slim, "CONSTANTS\n  Refs = {%s}\n" % ", ".join('"%s"' % x for x in letters))
         if err:
             print("MACHINERY-FAILURE:", err)
             return 2
-        bad = [f for f, _ in fails.get(0, []) if f in GRAPH_VIOL]
-        print("replayed graph", o["g"], "->", {k: o[k] for k in ("created", "kind", "order")}, "false formulas:", fails.get(0, []))
+        bad = sorted({f for fl in fails.values() for f, _ in fl if f in GRAPH_VIOL})
+        first = min(fails) if fails else 0
+        o = many[first]
+        print("replayed graph (24 observations)", o["g"], "->", {k: o[k] for k in ("created", "kind", "order")},
+              "false formulas:", sorted({f for fl in fails.values() for f, _ in fl}), "in", len(fails), "observation(s)")
         if bad:
             print(f"VIOLATION property={pid} replay={path}")
             return 1
